@@ -684,7 +684,8 @@ def trace_shards(chk, module, lines, name):
     n = len(lines)
     if n == 0:
         return {}
-    k = max(1, min(core.NPROC, (n + 1499) // 1500))
+    # shards of at most 6000 lines (a TLC process holds its whole file as TLA+ values), at most 10 processes at a time
+    k = max(1, min(core.NPROC, (n + 1499) // 1500), (n + 5999) // 6000)
     size = (n + k - 1) // k
     cfg = "INIT Init\nNEXT Next\nPOSTCONDITION Done\nCHECK_DEADLOCK FALSE\n"
 
@@ -700,12 +701,12 @@ def trace_shards(chk, module, lines, name):
         with open(fn, "w") as fh:
             for ln in part:
                 fh.write(json.dumps({a: b for a, b in ln.items() if a not in STRIP}) + "\n")
-        r = tlc.run(wd, module, cfg, workers=1, timeout=3000, env={"TRACE_FILE": str(fn)}, heap="3g", gc_threads=1)
+        r = tlc.run(wd, module, cfg, workers=1, timeout=3000, env={"TRACE_FILE": str(fn)}, heap="2500m", gc_threads=1)
         rej = tlc.rejected(r, len(part), module)
         shutil.rmtree(wd, ignore_errors=True)
         return j, r, rej
     out = {}
-    with cf.ThreadPoolExecutor(max_workers=k) as ex:
+    with cf.ThreadPoolExecutor(max_workers=min(k, 10)) as ex:
         for j, r, rej in ex.map(one, range(k)):
             chk.note_tlc(f"{module}/{name}/{j + 1}of{k}", r, "trace-validation")
             for i, info in rej.items():
@@ -878,7 +879,7 @@ def run(chk: core.Check, pid: str, classify):
     _tick(chk, "model checked, programs exported")
     # random programs first: forking workers from a parent that already holds the big table of transitions is slow
     rng = random.Random(chk.seed + 61)
-    seeds = [rng.randrange(1 << 30) for _ in range(6000 if quick else 60000)]
+    seeds = [rng.randrange(1 << 30) for _ in range(6000 if quick else 30000)]
     sink, strays = collect(chk, core.parallel_iter(_exec_random, seeds, {"length": 12}, chunk=max(100, min(500, len(seeds) // 64))))
     _tick(chk, "random programs executed")
     # programs with a common prefix next to each other and large chunks: a worker then sees most repetitions of a
